@@ -33,8 +33,12 @@ type Data struct {
 var counters engine.Counter
 
 func gen(tier string, emit func(engine.Case) bool) {
-	k := 1
 	fam.All(fam.Opts{Thorough: tier == "thorough"}, func(family, id string, e *ex.E) bool {
+		k := 1
+		// thorough: every pair of layout deviations for the smaller ASTs
+		if tier == "thorough" && len(ex.Tokens(e)) <= 12 {
+			k = 2
+		}
 		return emit(engine.Case{ID: id, Data: Data{Family: family, E: e, Src: ex.Canon(e), K: k}})
 	})
 }
@@ -340,7 +344,7 @@ func main() {
 				}
 			}
 			m["unspecified_by_reason"] = un
-			m["layout_deviation_bound"] = 1
+			m["layout_deviation_bound"] = "1 (quick); 2 for ASTs of <= 12 tokens in the thorough tier"
 			return m
 		},
 		QuickBudget:    5 * time.Minute,
